@@ -38,9 +38,24 @@ impl SimulationBoundary {
             HalfSpace::new(DVec3::NEG_Z, anchor + width, None, None),
         ];
 
+        // All active axes share one scale: the exact in-sphere test is only equivalent to the
+        // Voronoi criterion if the map to the integer grid is isotropic.
+        let max_width = match dimensionality {
+            Dimensionality::OneD => width.x,
+            Dimensionality::TwoD => width.x.max(width.y),
+            Dimensionality::ThreeD => width.max_element(),
+        };
+        let mut inverse_width = 1. / (4. * width);
+        inverse_width.x = 1. / (4. * max_width);
+        if let Dimensionality::TwoD | Dimensionality::ThreeD = dimensionality {
+            inverse_width.y = 1. / (4. * max_width);
+        }
+        if let Dimensionality::ThreeD = dimensionality {
+            inverse_width.z = 1. / (4. * max_width);
+        }
         Self {
             anchor: anchor - 1.5 * width,
-            inverse_width: 1. / (4. * width),
+            inverse_width,
             dimensionality,
             clipping_planes,
         }
